@@ -118,7 +118,7 @@ def aggregate(outs):
     agg = {}
     for o in outs:
         for name, r in o["results"].items():
-            a = agg.setdefault(name, {"name": name, "instances": 0, "discharged": 0, "vacuous": 0, "failed": [], "unknown": [], "solver_s": 0.0,
+            a = agg.setdefault(name, {"name": name, "instances": 0, "discharged": 0, "vacuous": 0, "failed": [], "unknown": [], "solver_s": 0.0, "solver_max_s": 0.0,
                                       "target": o["target"], "kind": r.get("kind", "prove"), "sample_smt": None, "backend": r.get("backend")})
             if r.get("kind") == "forbidden":
                 a["kind"] = "forbidden"
@@ -126,6 +126,9 @@ def aggregate(outs):
             a["discharged"] += r["discharged"]
             a["vacuous"] += r["vacuous"]
             a["solver_s"] += r["solver_s"]
+            a["solver_max_s"] = max(a["solver_max_s"], r.get("solver_max_s", 0.0))
+            if "cvc5" in (r.get("backend") or ""):
+                a["backend"] = r["backend"]
             for f in r["failed"]:
                 a["failed"].append({"case": f[0], "path": f[1], "model": f[3], "witness": o.get("witness", {}).get(name)})
             for f in r["unknown"]:
